@@ -255,6 +255,9 @@ func genArbitraryParams(t *rapid.T, mode string) *mParams {
 	m.PostRoot = genBigByLen(t, 40, "post")
 	batch := rapid.IntRange(0, 6).Draw(t, "batch")
 	depth := rapid.IntRange(0, 6).Draw(t, "depth")
+	if rapid.IntRange(0, 399).Draw(t, "long") == 0 {
+		batch, depth = pick(t, "long_batch", 100, 300), pick(t, "long_depth", 1, 8)
+	}
 	ragged := rapid.IntRange(0, 4).Draw(t, "ragged") == 0
 	if mode == "insertion" {
 		m.StartIndex = genIndex32(t, "start")
